@@ -261,14 +261,32 @@ def check_expr(case):
     require(got.nvdim == nv, "result-nvdim", f"{got.nvdim}")
     expect = np.broadcast_to(expect, (*n, nv))
     with np.errstate(all="ignore"):
-        ok = np.allclose(got.array, expect, rtol=1e-12, atol=0, equal_nan=True)
+        # the sign of an infinity born from a division by zero is not asserted: intermediate results of integer
+        # fields are floating-point fields, so "-0" exists where numpy's integer arithmetic has only 0 (section 6)
+        both_inf = np.isinf(got.array) & np.isinf(expect)
+        ga = np.where(both_inf, 0, got.array)
+        ea = np.where(both_inf, 0, expect)
+        ok = np.allclose(ga, ea, rtol=1e-12, atol=0, equal_nan=True)
     if not ok:
-        bad = np.argwhere(~np.isclose(got.array, expect, rtol=1e-12, atol=0, equal_nan=True))
+        bad = np.argwhere(~np.isclose(ga, ea, rtol=1e-12, atol=0, equal_nan=True))
         i = tuple(bad[0])
         raise Violation(f"value:{t[0]}", f"{len(bad)} entries differ; at {i}: field {got.array[i]!r} numpy {expect[i]!r}")
     for name, f in fields.items():
         if snapshot(f) != snaps[name]:
             raise Violation("operand-modified", f"operand {name} changed while evaluating {t}")
+    # operands stay untouched also by what is done to the result afterwards: an in-place ufunc on the result
+    # (np.multiply(r, 2, out=r) is itself a field expression) must not write into an operand's memory
+    if not any(got is f for f in fields.values()):  # unary + is documented to return the field itself
+        with np.errstate(all="ignore"):
+            try:
+                got.array[...] = got.array * 2 + 1
+            except (TypeError, ValueError):
+                pass
+        got.valid[...] = ~got.valid
+        for name, f in fields.items():
+            if snapshot(f) != snaps[name]:
+                raise Violation("operand-shares-memory-with-result",
+                                f"writing into the result of {t} changed operand {name} (values or validity)")
 
 
 @st.composite
